@@ -106,6 +106,12 @@ def conditions(tier):
             n = "wholefa_" + sfx(cs, ps)
             q.append(("whole_scaffolds_fasta_style_names_" + sfx(cs, ps), _m(n, [("S1", "FGF"), ("S2", "FFF")], ((0, 0), [(0, 0, 0), (1, 1, 0)]), cs, ps, fasta_like=True), n, 900,
                       f"as above with FASTA-style input (every contig of a scaffold carries the scaffold's name), contig strands {cs}, piece strands {ps}"))
+    # one sequence present as two abutting same-name contigs (a contig cut in an earlier round), both cut again
+    n = "ff2cuts_fa"
+    q.append(("two_cuts_FF_fasta_style_both_contigs_cut", _m(n, [("S1", "FF")], ((2,), [(0, 0, 2), (1, 0, 1), (2, 0, 0)]), False, (1, 1, 1), fasta_like=True,
+                                                              extra_pre=("c0_0 < l0_0", "c0_1 > l0_0")), n, 900,
+              "FASTA-style input F F (two ABUTTING contigs of the same name, forward), two cuts, one inside each contig, three painted Pretext scaffolds reversed, piece strands + + +: "
+              "the old boundary between the two contigs is not a cut"))
     for cs in ((1, -1, -1, 1), (-1, 1, 1, 1)):
         n = "whole_joined_" + sfx(cs, ())
         q.append(("two_whole_scaffolds_joined_" + sfx(cs, ()), _m(n, [("S1", "FGF"), ("S2", "FF")], ((0, 0), [(0, 0, 0), (0, 1, 0)]), cs, None), n, 900,
